@@ -119,10 +119,9 @@ def cmp_seq(expect, r):
     if len(expect["outs"]) != len(r["results"]):
         return "number of results differs"
     for k, (o, m) in enumerate(zip(expect["outs"], r["results"])):
-        d = wire.cmp_solve(o, m)
-        if d:
-            return f"solve #{k + 1}: {d}"
-    return None
+        if o["outcome"] != "Timeout" and o["outcome"] != m.get("outcome"):
+            return f"solve #{k + 1}: outcome {o['outcome']} vs model {m.get('outcome')}"
+    return None            # the VALUES of each solve are compared by C01..C05, C14; repeatability is judged on the implementation itself
 
 
 def op_sequences(rng, quick):
